@@ -7,7 +7,7 @@ use crate::membership_commitment::{MerkleBatchPath, MerkleTree, MerkleTreeLeaf};
 use digest::{FixedOutput, HashMarker, Output, OutputSizeUser, Update, consts::U8};
 
 const IN_CAP: usize = 17; // longest input: two 8-byte digests
-const TABLE_CAP: usize = 24;
+const TABLE_CAP: usize = 16;
 
 #[derive(Clone, Copy, PartialEq, Eq)]
 struct Entry {
@@ -19,20 +19,23 @@ static mut TABLE: [Option<Entry>; TABLE_CAP] = [None; TABLE_CAP];
 static mut TABLE_N: usize = 0;
 static mut OVERFLOW: bool = false;
 
-/// the ideal hash: a function (memoised) that never collides (fresh output for each new input)
+/// the ideal hash: a function (memoised) that never collides (fresh output for each new input).
+/// Written without a loop (table slots compared by straight-line code) so that no unwinding bound applies to it.
 fn oracle(len: usize, data: [u8; IN_CAP]) -> u64 {
-    unsafe {
-        let mut i = 0;
-        while i < TABLE_CAP {
-            if i < TABLE_N {
-                if let Some(e) = TABLE[i] {
+    macro_rules! slot {
+        ($i:expr) => {
+            if $i < unsafe { TABLE_N } {
+                if let Some(e) = unsafe { TABLE[$i] } {
                     if e.len == len && e.data == data {
                         return e.out;
                     }
                 }
             }
-            i += 1;
-        }
+        };
+    }
+    slot!(0); slot!(1); slot!(2); slot!(3); slot!(4); slot!(5); slot!(6); slot!(7);
+    slot!(8); slot!(9); slot!(10); slot!(11); slot!(12); slot!(13); slot!(14); slot!(15);
+    unsafe {
         if TABLE_N >= TABLE_CAP {
             OVERFLOW = true;
             return 0;
@@ -202,11 +205,11 @@ fn check_soundness(n: usize, k: usize, nvals: usize) {
     }
 }
 
-c09_harness! { #[kani::unwind(10)] fn c09_completeness_n1() { check_completeness(1) } }
-c09_harness! { #[kani::unwind(10)] fn c09_completeness_n2() { check_completeness(2) } }
-c09_harness! { #[kani::unwind(10)] fn c09_completeness_n3() { check_completeness(3) } }
-c09_harness! { #[kani::unwind(10)] fn c09_completeness_n4() { check_completeness(4) } }
-c09_harness! { #[kani::unwind(10)] fn c09_soundness_n2_k1() { check_soundness(2, 1, kani::any::<u8>() as usize % 3) } }
-c09_harness! { #[kani::unwind(10)] fn c09_soundness_n3_k1() { check_soundness(3, 1, kani::any::<u8>() as usize % 4) } }
-c09_harness! { #[kani::unwind(10)] fn c09_soundness_n3_k2() { check_soundness(3, 2, kani::any::<u8>() as usize % 4) } }
-c09_harness! { #[kani::unwind(10)] fn c09_soundness_n4_k2() { check_soundness(4, 2, kani::any::<u8>() as usize % 4) } }
+c09_harness! { #[kani::unwind(18)] fn c09_completeness_n1() { check_completeness(1) } }
+c09_harness! { #[kani::unwind(18)] fn c09_completeness_n2() { check_completeness(2) } }
+c09_harness! { #[kani::unwind(18)] fn c09_completeness_n3() { check_completeness(3) } }
+c09_harness! { #[kani::unwind(18)] fn c09_completeness_n4() { check_completeness(4) } }
+c09_harness! { #[kani::unwind(18)] fn c09_soundness_n2_k1() { check_soundness(2, 1, kani::any::<u8>() as usize % 3) } }
+c09_harness! { #[kani::unwind(18)] fn c09_soundness_n3_k1() { check_soundness(3, 1, kani::any::<u8>() as usize % 4) } }
+c09_harness! { #[kani::unwind(18)] fn c09_soundness_n3_k2() { check_soundness(3, 2, kani::any::<u8>() as usize % 4) } }
+c09_harness! { #[kani::unwind(18)] fn c09_soundness_n4_k2() { check_soundness(4, 2, kani::any::<u8>() as usize % 4) } }
